@@ -19,6 +19,25 @@ Definition f_data (st : kv) (h : handle) : kv * handle * bool :=
   else if h_fresh h then (st, set_loaded h false, true)
   else let '(st1, bad) := sdata st in (st1, set_loaded h bad, negb bad).
 
+(* notDirErr: a not-exist error becomes ErrNotDir when the nearest existing ancestor is not a directory;
+   one Get (its own transaction) per ancestor looked at *)
+Fixpoint not_dir_walk (fuel : nat) (st : kv) (dir : str) (e : err) : kv * err :=
+  if str_eqb dir dot then (st, e)
+  else match fuel with
+  | O => (st, e)
+  | Datatypes.S f =>
+    let '(st1, r) := sget st dir in
+    match r with
+    | inl rc => (st1, if is_dir (r_mode rc) then e else Bare ENOTDIR)
+    | inr e' => if cls_eqb (err_cls e') ENOENT then not_dir_walk f st1 (path_dir dir) e else (st1, e)
+    end
+  end.
+
+Definition not_dir_err (st : kv) (p : str) (e : err) : kv * err :=
+  if cls_eqb (err_cls e) ENOENT && negb (str_eqb p dot)
+  then not_dir_walk (length p) st (path_dir p) e
+  else (st, e).
+
 (* getFile *)
 Definition get_file (st : kv) (p : str) : kv * (handle + err) :=
   if negb (valid_path p) then (st, inr (Bare EINVAL))
@@ -26,7 +45,7 @@ Definition get_file (st : kv) (p : str) : kv * (handle + err) :=
     let '(st1, r) := sget st p in
     match r with
     | inl rc => (st1, inl (mk_file p rc))
-    | inr e => (st1, inr e)
+    | inr e => let '(st2, e') := not_dir_err st1 p e in (st2, inr e')
     end.
 
 (* setFile(path, file) / setFile(path, nil); returns the file object with its memo updated *)
@@ -188,7 +207,7 @@ Definition kv_openfile (st : kv) (p : str) (flag perm : N) : kv * (handle + err)
       | inr e =>
         if cls_eqb (err_cls e) ENOENT && create then
           match r1 with
-          | inr e1 => (st1, inr (wrap p e1))
+          | inr e1 => let '(stx, e1') := not_dir_err st1 (path_dir p) e1 in (stx, inr (wrap p e1'))
           | inl par =>
             if negb (is_dir (r_mode par)) then (st1, inr (PathErr p ENOTDIR))
             else
@@ -199,7 +218,7 @@ Definition kv_openfile (st : kv) (p : str) (flag perm : N) : kv * (handle + err)
               | None => (stb, inl f')
               end
           end
-        else (st1, inr (wrap p e))
+        else let '(stx, e') := not_dir_err st1 p e in (stx, inr (wrap p e'))
       end in
     match res with
     | inr e => (st2, inr e)
